@@ -103,6 +103,7 @@ def gen_schema(c, opts=None):
         "max_objects": 4, "max_interfaces": 2, "max_unions": 2, "max_enums": 2,
         "max_inputs": 2, "max_scalars": 1, "mutation": True, "subscription": False,
         "odd_names": False, "args": True, "custom_roots": True, "query_directive": True,
+        "schema_directive": True,
     }
     o.update(opts or {})
     schema = {"types": {}, "roots": {}, "directives": {}}
@@ -258,6 +259,25 @@ def gen_schema(c, opts=None):
             "args": {"n": {"type": "Int"}},
             "locations": ["FIELD", "FRAGMENT_SPREAD", "INLINE_FRAGMENT", "QUERY", "MUTATION", "SUBSCRIPTION", "FRAGMENT_DEFINITION"],
         }
+    if o["schema_directive"] and c.maybe(50):
+        schema["directives"]["sd"] = {
+            "args": {},
+            "locations": ["SCALAR", "OBJECT", "FIELD_DEFINITION", "ARGUMENT_DEFINITION", "INTERFACE", "UNION", "ENUM", "ENUM_VALUE", "INPUT_OBJECT", "INPUT_FIELD_DEFINITION"],
+        }
+        sd = [{"name": "sd", "args": []}]
+        for tn, td in T.items():
+            if c.maybe(25):
+                td["dirs"] = sd
+            if td["kind"] == "ENUM":
+                td["value_dirs"] = {v: sd for v in td["values"] if c.maybe(25)}
+            for fn, fd in (td.get("fields") or {}).items():
+                if td["kind"] == "INTERFACE":
+                    continue  # keep interface / implementer field definitions textually equal
+                if c.maybe(25) and not any(fn in T[i]["fields"] for i in td.get("interfaces", ())):
+                    fd["dirs"] = sd
+                for an, ad in (fd.get("args") or {}).items():
+                    if c.maybe(25) and not any(fn in T[i]["fields"] for i in td.get("interfaces", ())):
+                        ad["dirs"] = sd
     # order of type definitions in the SDL is free: shuffle
     order = c.shuffle(list(T)) if c.maybe(50) else list(T)
     schema["types"] = {n: T[n] for n in order}
@@ -579,7 +599,7 @@ class DocGen:
 
     def selection(self, ptype, depth, scope, used, ufrags, avail_frags):
         c = self.c
-        kind = c.weighted([(60, "field"), (14, "inline"), (14, "spread"), (6, "typename"), (6, "repeat")])
+        kind = c.weighted([(60, "field"), (self.o.get("w_inline", 14), "inline"), (self.o.get("w_spread", 14), "spread"), (6, "typename"), (self.o.get("w_repeat", 6), "repeat")])
         fdefs = fields_of(self.schema, ptype)
         too_big = self.nodes > self.o["max_nodes"]
         if kind == "spread":
